@@ -10,13 +10,8 @@ static void gen_ple(const GenCtx &ctx, Case &c, int viewpct) {
   bool naive = r.find("naive") != std::string::npos;
   bool russian = r.find("russian") != std::string::npos;
   int m, n;
-  long plecut = vf_cfg_ple_cutoff();
-  bool rec = !naive && !russian && ctx.scale >= 400 && plecut <= 20000 && g::coin(1, 4);
+  bool rec = !naive && !russian && g::coin(1, 4) && g::ple_recursive_shape(ctx, m, n);
   if (rec) {
-    // block-recursive regime: width * nrows > __M4RI_PLE_CUTOFF and ncols > 64
-    int w = g::wpick<int>({{3, g::rng(8, 20)}, {2, g::rng(20, 64)}, {1, g::rng(6, 8)}});
-    m = (int)(plecut / w) + g::rng(1, 80);
-    n = 64 * w - g::pick<int>({0, 0, 1, 63, g::rng(0, 63)});
   } else {
     std::vector<int> thr = {64, 128, 192, 256};
     m = g::dim(capv, thr);
